@@ -672,14 +672,20 @@ fn packed_dataflow_program(rng: &mut StdRng) -> Vec<u8> {
     let nslots = rng.gen_range(2..4usize);
     let mut placed: Vec<Vec<(usize, usize)>> = Vec::new(); // per slot: (offset, width)
     for slot in 0..nslots {
-        // fields in ascending order with random holes; later slots sit high in the word
-        let mut pos = if slot == 0 { 8 * rng.gen_range(0..4usize) } else { 8 * rng.gen_range(8..20usize) };
+        // fields in ascending order with random holes; later slots are filled up to the top of the word, so that
+        // anything placed even slightly too high leaves it
+        let mut chosen: Vec<(usize, usize)> = Vec::new();
+        for i in 0..nvals {
+            if rng.gen_bool(if slot == 0 { 0.8 } else { 0.6 }) {
+                chosen.push((i, 8 * [0usize, 1, 4, 8, 8][rng.gen_range(0..5)]));
+            }
+        }
+        let total: usize = chosen.iter().map(|(i, g)| ws[*i] + g).sum();
+        let mut pos = if slot == 0 { 8 * rng.gen_range(0..2usize) } else { 256usize.saturating_sub(total) };
         let mut first = true;
         let mut fields = Vec::new();
-        for i in 0..nvals {
-            if rng.gen_bool(0.3) && !(first && i + 1 == nvals) {
-                continue;
-            }
+        for (i, gap) in chosen {
+            pos += gap;
             if pos + ws[i] > 256 {
                 break;
             }
@@ -692,7 +698,7 @@ fn packed_dataflow_program(rng: &mut StdRng) -> Vec<u8> {
             }
             first = false;
             fields.push((pos, ws[i]));
-            pos += ws[i] + 8 * [0usize, 0, 1, 4, 8][rng.gen_range(0..5)];
+            pos += ws[i];
         }
         if first {
             items.extend(val(0, ws[0], 0));
@@ -702,8 +708,8 @@ fn packed_dataflow_program(rng: &mut StdRng) -> Vec<u8> {
         placed.push(fields);
     }
     // partial reads that cut fields, stored on their own or packed high into a further slot
-    for r in 0..rng.gen_range(1..4usize) {
-        let slot = rng.gen_range(0..nslots);
+    for r in 0..rng.gen_range(2..5usize) {
+        let slot = if rng.gen_bool(0.7) { 0 } else { rng.gen_range(0..nslots) };
         let (off, w) = placed[slot][rng.gen_range(0..placed[slot].len())];
         let cut = [8usize, 16, 32][rng.gen_range(0..3)].min(w);
         let from = off + if rng.gen_bool(0.5) { 0 } else { 8 * rng.gen_range(0..=(w - cut) / 8) };
@@ -834,6 +840,18 @@ fn renumber(vars: &[VarDesc], rng: &mut StdRng) -> (Vec<VarDesc>, Vec<(String, S
             if n > 0 {
                 s[23 - 8 * ((n - 1) % 3)] = 1 + ((n - 1) / 3) as u8; // 2^64, 2^128, 2^192 times a small factor
             }
+            if !used.contains(&s) {
+                used.push(s);
+                fresh = s;
+            }
+        }
+        // arrays reached through a literal folded base: onto small slots of every kind of hash (among them the ones
+        // whose hash begins with a zero byte)
+        if !named && !congruent && rng.gen_bool(0.5) {
+            let special = idioms::short_hash_slots();
+            let n = if rng.gen_bool(0.6) { special[rng.gen_range(0..special.len())] } else { rng.gen_range(0..10_000) };
+            let mut s = [0u8; 32];
+            s[24..].copy_from_slice(&n.to_be_bytes());
             if !used.contains(&s) {
                 used.push(s);
                 fresh = s;
